@@ -1,4 +1,4 @@
-import LZ4V.Proofs.FrameDS4
+import LZ4V.Proofs.FrameDS5
 import LZ4V.Properties.C08
 /-!
 # C08 (and the decoding halves of C03 / C19) — `LZ4F_decompress` computes the frame specification, whatever the chunking
@@ -19,8 +19,8 @@ are its consequences for a whole session, i.e. for ANY sequence of calls with AN
 * `valid_frame_decodes` — a frame accepted by the frame specification of `Spec/FrameL.lean` is never rejected and decodes to the specified content.
 
 The specification side `pDFrame` is `Spec/FrameL.lean`'s `pFrame` (header, block loop, checksums) plus skippable frames, with the declared content
-size checked when it is non-zero (all the C tracks and all the property asks).  Not covered by these theorems: progress/termination of a call,
-the physical placement of the 64 KB history (`LZ4F_updateDict`), `skipChecksums`, `LZ4F_getFrameInfo`; the block decoder and the checksum are
+size checked when it is non-zero (all the C tracks and all the property asks).  `every_call_terminates`: the loop of one call always ends.  Not covered by these theorems: that a call which was offered input and room consumes or
+produces something (observed on every traced call), the physical placement of the 64 KB history (`LZ4F_updateDict`), `skipChecksums`, `LZ4F_getFrameInfo`; the block decoder and the checksum are
 parameters (any function for the checksum, any capacity-respecting function for the decoder).
 -/
 namespace LZ4V.C08
@@ -166,6 +166,29 @@ theorem valid_frame_decodes (E : Env) (hE : DecBounded E) (c : Ctx) (d input : B
     injection b with b
     injection b with x y
     exact ⟨x, y⟩
+
+/-- **every call terminates**: for ANY context (reachable or not), input, output capacity and `skipChecksums` option, the `while (doAnotherStage)` loop
+    of the model ends by itself — each iteration that does not stop consumes input or moves to a stage of lower rank (`Proofs/FrameDS5.lean`) -/
+theorem every_call_terminates (E : Env) (c : Ctx) (src : Bytes) (cap : Nat) (skipOpt : Bool) : (decompress E c src cap skipOpt).ret ≠ .stuck :=
+  decompress_terminates E c src cap skipOpt
+
+/-- … and a session never gets stuck either -/
+theorem session_never_stuck (E : Env) : ∀ (sched : List (Nat × Nat)) (c : Ctx) (rest out : Bytes), session E c rest sched out ≠ .stuck := by
+  intro sched
+  induction sched with
+  | nil => intro c rest out h; cases h
+  | cons ac sched ih =>
+    intro c rest out
+    obtain ⟨avail, cap⟩ := ac
+    unfold session
+    have ht := decompress_terminates E c (rest.take avail) cap false
+    cases hret : (decompress E c (rest.take avail) cap false).ret with
+    | hint h =>
+      cases h with
+      | zero => intro hc; cases hc
+      | succ h' => exact ih _ _ _
+    | error e => dsimp only; intro hc; cases hc
+    | stuck => exact absurd hret ht
 
 /-! non-vacuity: a concrete frame (independent blocks, one stored block `abc`, no checksums) fed one byte at a time with one byte of room -/
 def toyEnv : Env := { hash := fun _ => 0, dec := fun _ p cap => if p.length ≤ cap then some p else none }
